@@ -1157,8 +1157,16 @@ func (mpt *MerklePatriciaTrie) MergeDB(ndb NodeDB, root Key, deadNodes []Node) e
 	mpt.mutex.Lock()
 	defer mpt.mutex.Unlock()
 	handler := func(ctx context.Context, key Key, node Node) error {
-		_, _, err := mpt.insertNode(nil, node)
-		return err
+		// the nodes of the other db keep their own origin (it is part of their hash) and
+		// are stored under their own hash; the other db's node objects are not touched
+		nd := node.CloneNode()
+		ckey := nd.GetHashBytes()
+		if err := mpt.db.PutNode(ckey, nd); err != nil {
+			return err
+		}
+		mpt.cache.Set(string(ckey), nd)
+		mpt.ChangeCollector.AddChange(nil, nd)
+		return nil
 	}
 	mpt.root = root
 	mpt.deleteNodes = append(mpt.deleteNodes, deadNodes...)
